@@ -66,7 +66,7 @@ def table_check(ctx, rep):
 def eval_sessions(ctx):
     """random sessions, then generated matcher trees (nesting depth 2/3) evaluated on every recorded message in several spellings"""
     for k in range(ctx.pick(60, 500)):
-        g = gen.SessionGen(ctx.seed * 2147483647 + k, nconn=(1, 3), nmsg=(25, 50), junk=0.0, core=None if k % 3 else True)
+        g = gen.SessionGen(ctx.seed * 2147483647 + k, nconn=(1, 3), nmsg=(25, 50), junk=0.0, core=None if k % 3 else True, unresolved=0.06)
         s = g.session()
         evs = [e for e in s['events'] if e['in']['e'] == 'msg']
         mg = gen.MatcherGen(g.r, ctx.pick(2, 3) if k % 2 else 1)
